@@ -44,6 +44,8 @@ MUTANTS = [
     M("loop-fires-on-any-result", OFF,
       "            if finished:\n                self.log(\"finished reading ciphertext\", level=log.NOISY)",
       "            if finished is not None:\n                self.log(\"finished reading ciphertext\", level=log.NOISY)", "C44.3"),
+    M("loop-fires-when-unfinished", OFF,
+      "            else:\n                self._loop(fire_when_done)\n", "            else:\n                fire_when_done.callback(None)\n", "C44.3"),
     M("chunk-size-zero", OFF, "    CHUNK_SIZE = 50*1024\n", "    CHUNK_SIZE = 0\n", "C44.3"),
     # -- C44.4 hand-over
     M("start-reading-returns-none", OFF,
@@ -150,6 +152,17 @@ MUTANTS = [
       "            return False # not done\n", "            return self._have == self._expected_size\n", None),
     M("benign-string-replace-in-name", OFF,
       "        si_s = si_b2a(storage_index).decode('ascii')\n", "        si_s = si_b2a(storage_index).decode('ascii').replace('=', '')\n", None),
+    M("benign-exists-hoisted", OFF,
+      "        if os.path.exists(self._encoding_file):\n            self.log(\"ciphertext already present, bypassing fetch\",",
+      "        present = os.path.exists(self._encoding_file)\n        if present:\n"
+      "            self.log(\"ciphertext already present, bypassing fetch\",", None),
+    M("benign-have-default-then-size", OFF,
+      "        if os.path.exists(self._incoming_file):\n            self._have = os.stat(self._incoming_file)[stat.ST_SIZE]\n"
+      "            self._upload_helper._helper.count(\"chk_upload_helper.resumes\")\n"
+      "            self.log(\"we already have %d bytes\" % self._have, level=log.NOISY)\n        else:\n"
+      "            self._have = 0\n            self.log(\"we do not have any ciphertext yet\", level=log.NOISY)\n",
+      "        self._have = 0\n        if os.path.exists(self._incoming_file):\n"
+      "            self._have = os.stat(self._incoming_file)[stat.ST_SIZE]\n", None),
     # -- vanished anchor
     M("vanish-start-reading", OFF, "    def _start_reading(self, res):", "    def _start_readingX(self, res):", "ANALYSIS-ERROR"),
 ]
